@@ -1,5 +1,6 @@
 CONSTANTS
   Top = "A"
+  CaOf <- IdCa
   ShadowRebuilt = TRUE
   Sub = {"B", "C", "D"}
   Res = {"p1", "p2", "a1"}
